@@ -451,6 +451,20 @@ static void run_ssvx(vcase *c)
             { real_t g = P(PivotGrowth)((int_t) n, pa, perm_c, &L, &U); fprintf(out, "#R direct_rpg %a\n", (double) g); }
             { char nm[2] = "M"; real_t an = P(langs)(nm, pa); fprintf(out, "#R direct_maxabs %a\n", (double) an); }
             quiet = 0;
+            {   /* the same factors reused (fact = FACTORED) for the OTHER transpose, with a fresh rcond variable: the estimate is an
+                   output of every call and belongs to the norm of the system solved by THAT call */
+                real_t rc2 = (real_t) -1, rpg2 = 0; int_t inf2 = -999; trans_t t2 = (c->trans == 0) ? TRANS : NOTRANS;
+                val_t *sb = malloc(sizeof(val_t) * (n * nrhs + 1)), *sx = malloc(sizeof(val_t) * (n * nrhs + 1));
+                real_t *f2 = calloc(nrhs + 1, sizeof(real_t)), *b2 = calloc(nrhs + 1, sizeof(real_t));
+                equed_t eq2 = equed;
+                memcpy(sb, c->b, sizeof(val_t) * n * nrhs); memcpy(sx, xm, sizeof(val_t) * n * nrhs);
+                o.fact = FACTORED; o.trans = t2; quiet = 1;
+                PP(gssvx)(c->nprocs, &o, &A, perm_c, perm_r, &eq2, R, C, &L, &U, &B, &X, &rpg2, &rc2, f2, b2, &mu, &inf2);
+                quiet = 0; o.fact = (fact_t) c->fact; o.trans = (trans_t) c->trans;
+                memcpy(c->b, sb, sizeof(val_t) * n * nrhs); memcpy(xm, sx, sizeof(val_t) * n * nrhs);
+                fprintf(out, "#R factored2 %d %a %ld\n", (int) t2, (double) rc2, (long) inf2);
+                free(sb); free(sx); free(f2); free(b2);
+            }
             /* ?gsrfs called directly (C13): start from the solution of ?gstrs perturbed entry-wise by the
                relative amounts given in the case, so that several refinement steps are taken */
             if (c->xpert) {
